@@ -94,6 +94,15 @@ def concretise(hist, bind):
                 lg = e[2] if len(e) == 3 else False
                 keymap[apirec.krepr("pair", e[0], e[1], lg)] = (e[0], e[1], lg)
             ops.append(["bulk", [[E(x) for x in e] for e in ents], m, bool(v), bool(sv)])
+        elif kind == "bulkmany":
+            # a bulk run over hundreds of DISTINCT pairs that all need real work (tens of thousands of colour conversions): whatever the
+            # library keeps between calls has been through a long history afterwards
+            r2 = random.Random(op[1])
+            ents = []
+            for _ in range(op[2]):
+                a_, b_ = pairs.near_threshold(r2, r2.choice((4.5, 7.0)), (0.05, 0.35))
+                ents.append((pairs.hexs(a_), pairs.hexs(b_)))
+            ops.append(["bulk", [[E(x) for x in e] for e in ents], op[3], bool(op[4]), False])
         elif kind == "bulklong":
             # the same two pairs at 1,200 positions of one bulk list (a list long enough for any "large batch" path)
             (t1, b1, l1), (t2, b2, l2) = bind[0], bind[1]
@@ -216,6 +225,13 @@ def main():
         bnd = [(("#777777", "#ffffff", False), ("#767676", "#ffffff", False)), (((119, 119, 119), "#ffffff", True), ("#888888", "#000000", False)),
                (("rgb(119, 119, 119)", "white", False), ("#000000", "#ffffff", True))][k % 3]
         jobs.append(((("new", 1), ("fix", 1, k % 3, False, 0), ("bulklong", k % 3, False), ("fix", 2, k % 3, False, 0), ("bulklong", k % 3, False)), bnd))
+    # long histories: probes, then three bulk runs over 400 distinct pairs each (some 40,000 distinct colours pass through the conversions), then the same probes again (same and new objects)
+    for k in range(2 if t == "quick" else 10):
+        bnd = [(("#999999", "#ffffff", False), ("#8a8a8a", "#101010", False)), (("rgb(150, 120, 90)", "#ffffff", False), ((60, 90, 160), (20, 20, 20), True))][k % 2]
+        sd = rnd.randrange(1 << 30)
+        jobs.append(((("new", 1), ("fix", 1, 1, False, 0), ("new", 2), ("fix", 2, 2, True, 0),
+                      ("bulkmany", sd, 400, 2, True), ("bulkmany", sd + 1, 400, 2, True), ("bulkmany", sd + 2, 400, 1, False),
+                      ("fix", 1, 1, False, 0), ("fix", 2, 2, True, 0), ("new", 1), ("fix", 1, 1, False, 0), ("bulk", 1, 1, False, 0)), bnd))
     results = vlib.pool_map(_exec, jobs, chunksize=6)
     # thread workloads (in this process)
     thread_runs = []
